@@ -70,6 +70,7 @@ type target struct {
 	con   *Contract
 	iface *Contract
 	sweep bool
+	implOf types.Type // concrete type whose method set is being checked (promoted methods: the outer type)
 }
 
 // targetsFor: the functions under contract for a property
@@ -125,6 +126,73 @@ func (e *Engine) targetsFor(prop string) ([]target, []string) {
 			continue
 		}
 		out = append(out, target{fn: fn, con: c})
+	}
+	// implcheck declarations
+	for _, ic := range e.cs.ImplChecks {
+		if ic.Prop != prop && prop != "all" {
+			continue
+		}
+		parts := strings.SplitN(ic.Iface, ".", 2)
+		var ipkg *types.Package
+		iname := ic.Iface
+		if len(parts) == 2 {
+			ipkg = e.pkgByName(parts[0])
+			iname = parts[1]
+		} else {
+			ipkg = e.tpkgs[ic.PkgPath]
+		}
+		if ipkg == nil {
+			problems = append(problems, "implcheck: unknown package in "+ic.Iface)
+			continue
+		}
+		itn, _ := ipkg.Scope().Lookup(iname).(*types.TypeName)
+		if itn == nil {
+			problems = append(problems, "implcheck: unknown interface "+ic.Iface)
+			continue
+		}
+		it, ok := itn.Type().Underlying().(*types.Interface)
+		if !ok {
+			problems = append(problems, "implcheck: not an interface: "+ic.Iface)
+			continue
+		}
+		tpkg := e.tpkgs[ic.PkgPath]
+		for _, tname := range ic.Types {
+			ttn, _ := tpkg.Scope().Lookup(strings.TrimPrefix(tname, "*")).(*types.TypeName)
+			if ttn == nil {
+				problems = append(problems, "implcheck: unknown type "+tname)
+				continue
+			}
+			var ct types.Type = ttn.Type()
+			if strings.HasPrefix(tname, "*") {
+				ct = types.NewPointer(ct)
+			}
+			for i := 0; i < it.NumMethods(); i++ {
+				m := it.Method(i)
+				ic2 := e.contracts[funcKeyOf(m)]
+				if ic2 == nil || !ic2.IsIface {
+					continue
+				}
+				ms := e.prog.MethodSets.MethodSet(ct)
+				sel := ms.Lookup(m.Pkg(), m.Name())
+				if sel == nil {
+					problems = append(problems, fmt.Sprintf("implcheck: %s has no method %s", tname, m.Name()))
+					continue
+				}
+				fn := e.prog.MethodValue(sel)
+				if fn == nil || len(fn.Blocks) == 0 {
+					continue
+				}
+				if fn.Synthetic != "" {
+					// promoted method: check the declaring method (receiver = the embedded struct)
+					if obj, ok := sel.Obj().(*types.Func); ok {
+						if dfn := e.prog.FuncValue(obj); dfn != nil && len(dfn.Blocks) > 0 {
+							fn = dfn
+						}
+					}
+				}
+				out = append(out, target{fn: fn, con: e.contracts[keyOfFunction(fn)], iface: ic2, implOf: ct})
+			}
+		}
 	}
 	// sweeps: every function of the named files (safety obligations; the function's own contract is used if it has one)
 	have := map[*ssa.Function]bool{}
@@ -214,6 +282,7 @@ func (e *Engine) runTargets(ts []target, mode string) *checkResult {
 		con := t.con
 		fx := e.newFnExec(t.fn, con)
 		fx.iface = t.iface
+		fx.implOf = t.implOf
 		fx.mode = mode
 		if con == nil {
 			fx.con = &Contract{Flags: map[string]string{}, Absorbs: map[string]string{}, Inv: map[int][]Clause{}, Dec: map[int]Clause{}}
@@ -454,7 +523,7 @@ func splitFields(s string) []string {
 
 var reOrdSuffix = regexp.MustCompile(`(@ret\d+|@b\d+)$`)
 var rePreOrd = regexp.MustCompile(`@\d+\.`)
-var reNumbered = regexp.MustCompile(`/(nil|idx|assert|div|unreachable|makeslice|typeinv|monotone|immutable|boxnil|cover|frame|pre)#`)
+var reNumbered = regexp.MustCompile(`/(nil|idx|assert|div|unreachable|makeslice|typeinv|typeinv-exit|monotone|immutable|boxnil|cover|frame|pre)#`)
 
 // canonName: the stable part of an obligation name. Return/latch ordinals are dropped, and
 // obligations that are only numbered in instruction order (safety checks) have no stable name.
@@ -584,7 +653,12 @@ func report(e *Engine, prop, tier string, seed int, t0 time.Time, ts []target, r
 		present[canonName(v.Ob.Name)] = true
 		if v.Ob.Class == "cover" {
 			if v.Status == "cover-vacuous" {
-				if strings.HasSuffix(v.Ob.Name, "/cover#pre") {
+				if strings.HasSuffix(v.Ob.Name, "/cover#pre") && v.Ob.fx != nil && (v.Ob.fx.iface != nil || v.Ob.fx.inheritedPre) {
+					// an interface-level precondition that this implementation can never meet (e.g. Current() on the
+					// always-empty cursor): nothing to prove, not a vacuity fault of the contract
+					deadCovers[v.Ob.Fn] = append(deadCovers[v.Ob.Fn], v.Ob.Name)
+					liveRet[v.Ob.Fn] = true
+				} else if strings.HasSuffix(v.Ob.Name, "/cover#pre") {
 					vacuous++
 					problems = append(problems, "vacuous precondition: "+v.Ob.Name)
 				} else {
